@@ -199,6 +199,10 @@ func (e *Exec) closeEverythingRandomOrder() {
 	if !e.collOpen {
 		phase = 1
 	}
+	// (not drawn: the README closes the collection first, and a store closed
+	// under a running collection makes the next persistence round dereference
+	// its nil footer - outside the documented use, no property covers it)
+	storeFirst := false
 	for {
 		var open []int
 		for i, h := range e.handles {
@@ -220,11 +224,17 @@ func (e *Exec) closeEverythingRandomOrder() {
 		}
 		phase++
 		what := "collection"
-		if phase == 1 {
+		if (phase == 1) != storeFirst {
 			e.closeColl()
 		} else {
+			if storeFirst {
+				e.noRoundChecks = true // no store to look at from the round callback any more
+			}
 			e.closeStore()
 			what = "store"
+		}
+		if storeFirst {
+			e.probe("store-closed-before-collection")
 		}
 		simrt.Quiesce(20000, 2)
 		if e.viol != nil {
